@@ -40,6 +40,6 @@ PROPS_C15 = {
         # ~45 ms per case with 8-16 processes in parallel
         {"name": "c15.safety", "engine": "rapid", "quick": _R(4, 1500), "thorough": _R(8, 40000)},
         # ~0.4 s per connecting case; about 6 % of the cases are role conflicts that cost the full 12 s wait each
-        {"name": "c15.liveness", "engine": "rapid", "quick": _R(12, 45), "thorough": _R(16, 1500)},
+        {"name": "c15.liveness", "engine": "rapid", "quick": _R(12, 45, params={"case_timeout": 600}), "thorough": _R(16, 1500, params={"case_timeout": 600})},
     ],
 }
